@@ -102,6 +102,45 @@ impl<K: Copy + PartialEq, V> HashMap<K, V> {
         }
     }
     pub fn shrink_to_fit(&mut self) {}
+    pub fn is_empty(&self) -> bool {
+        self.len() == 0
+    }
+    pub fn remove(&mut self, k: &K) -> Option<V> {
+        if self.holds(0, k) {
+            return self.slots[0].take().map(|(_, v)| v);
+        }
+        if self.holds(1, k) {
+            return self.slots[1].take().map(|(_, v)| v);
+        }
+        if self.holds(2, k) {
+            return self.slots[2].take().map(|(_, v)| v);
+        }
+        if self.holds(3, k) {
+            return self.slots[3].take().map(|(_, v)| v);
+        }
+        None
+    }
+    pub fn get_mut(&mut self, k: &K) -> Option<&mut V> {
+        if self.holds(0, k) {
+            return self.slots[0].as_mut().map(|(_, v)| v);
+        }
+        if self.holds(1, k) {
+            return self.slots[1].as_mut().map(|(_, v)| v);
+        }
+        if self.holds(2, k) {
+            return self.slots[2].as_mut().map(|(_, v)| v);
+        }
+        if self.holds(3, k) {
+            return self.slots[3].as_mut().map(|(_, v)| v);
+        }
+        None
+    }
+    pub fn keys(&self) -> impl Iterator<Item = &K> + '_ {
+        self.iter().map(|(k, _)| k)
+    }
+    pub fn values(&self) -> impl Iterator<Item = &V> + '_ {
+        self.iter().map(|(_, v)| v)
+    }
     pub fn iter(&self) -> Iter<'_, K, V> {
         Iter { map: self, pos: 0 }
     }
